@@ -7,7 +7,8 @@ code vs the same model executed at Rat (natural p, exact p-th power) and at Floa
 of generated diagrams, their differences and random linear combinations, and on synthetic piecewise-linear
 functions.  [T] on the real code: real p, homogeneity, ||P-P|| = 0, triangle inequality, finiteness, sup-norm
 stability vs `persim.bottleneck`, and an independent quadrature oracle (scipy.integrate.quad with breakpoints).
-(Homogeneity, P-P, the triangle inequality and stability are also theorems for natural p; real p is tests only.)
+(Homogeneity, P-P, the triangle inequality, stability and real p are also theorems over the reals; what only the
+tests cover is float rounding.)
 """
 import contextlib, io, math
 from fractions import Fraction
@@ -698,25 +699,28 @@ def replay(ctx, rep):
 
 
 MANIFEST = {
-    "text": "Proof for natural p: Lean theorems about the model of _p_norm / p_norm / sup_norm at the reals. Each segment term "
-            "of the model (flat, sign-crossing, one-signed of either sign in the cancellation-free form of fix b342827) equals "
-            "the interval integral of |line|^p; the accumulated value equals the sum over depths of the integral of |evalPL|^p "
-            "over the support and, for p >= 1, over the real line, so the returned norm is its p-th root; the sup norm of both "
-            "classes equals the greatest value of |evalPL| over all depths (attained at a breakpoint); the value is non-negative, "
-            "absolutely homogeneous (p-norm and sup norm), zero on P - P, and satisfies the triangle inequality (Minkowski in L^p per "
-            "depth via Mathlib's lintegral_Lp_add_le, then in l^p over depths) whenever h represents f + g; base.py rejects exactly p < -1 and -1 < p < 0; the "
-            "pre-fix formula is refuted by norm_num on [(0,0),(1,1),(3,-1),(4,0)] (2/3 instead of 4/3). Stability is proved for "
-            "the mathematical landscape: a partial matching of cost <= eps gives |lambda_k(t) - lambda'_k(t)| <= eps for all k, "
-            "t, hence sup-norm distance <= bottleneck distance. The model is tied to the code on every run at Rat (exact p-th "
-            "power, natural p in 1..20, 1e-9 relative) and at Float (real p) on exact and grid landscapes, their differences and "
-            "linear combinations and on synthetic functions with forced zeros, equal and nearly equal neighbours.",
-    "note": "[T] only, not proved: real (non-integer) p (Float model + quadrature oracle; homogeneity/triangle/zero laws for real "
-            "p are tests on the real code); finiteness/accuracy under float "
-            "rounding (law stream; this is what exposed the near-flat cancellation repaired by b342827); the stability theorem is "
-            "about PL.landscape, its transfer to the code's sweep rests on C03/C09 and is additionally tested against "
-            "persim.bottleneck (cases where the C03 repeated-bar shortcut fires are skipped and counted). Trusted: Lean kernel + "
-            "Mathlib, axioms propext/Classical.choice/Quot.sound; the correspondence harness; np.linspace, C pow/expm1/log. "
-            "Observation outside the property (p >= 1): p_norm(-1) returns NaN instead of the sup norm, because both subclasses "
-            "discard the value of super().p_norm — modelled as is (pNormMethod).",
-    "technique": "Lean 4 theorems (Mathlib interval integrals) over a hand-written model + differential correspondence at Rat/Float + quadrature oracle",
+    "text": "Proof for natural and real p >= 1: Lean theorems about the model of _p_norm / p_norm / sup_norm at the reals. Each "
+            "segment term of the model (flat, sign-crossing, one-signed of either sign in the cancellation-free form of fix "
+            "b342827, with the code's own -expm1((p+1) log r) for real p) equals the interval integral of |line|^p; the "
+            "accumulated value equals the sum over depths of the integral of |evalPL|^p over the support and over the real "
+            "line, so the returned norm is its p-th root (pNormMethod_real: validation passes, no error, value = root of the "
+            "integral); the sup norm of both classes equals the greatest value of |evalPL| over all depths (attained at a "
+            "breakpoint); the value is non-negative, absolutely homogeneous, zero on P - P, and satisfies the triangle "
+            "inequality (Minkowski in L^p per depth via Mathlib's lintegral_Lp_add_le, then in l^p over depths) whenever h "
+            "represents f + g; base.py rejects exactly p < -1 and -1 < p < 0; the pre-fix formula is refuted by norm_num on "
+            "[(0,0),(1,1),(3,-1),(4,0)] (2/3 instead of 4/3). Stability is proved for the mathematical landscape: a partial "
+            "matching of cost <= eps gives |lambda_k(t) - lambda'_k(t)| <= eps for all k, t, hence sup-norm distance <= "
+            "bottleneck distance. The model is tied to the code on every run at Rat (exact p-th power, natural p in 1..20, 1e-9 "
+            "relative) and at Float (real p) on exact and grid landscapes, their differences and linear combinations and on "
+            "synthetic functions with forced zeros, equal and nearly equal neighbours.",
+    "note": "Theorems are exact-arithmetic (reals). [T] only: behaviour under float rounding — finiteness, accuracy and the laws "
+            "on the real code (law stream + quadrature oracle; this is what exposed the near-flat cancellation repaired by "
+            "b342827); the Float model's expm1 is Kahan's exp/log formula (core Lean has no expm1), np.expm1/np.log/C pow are "
+            "trusted to agree with it to 1e-9. The stability theorem is about PL.landscape; its transfer to the code's sweep "
+            "rests on C03/C09 and is additionally tested against persim.bottleneck (cases where the C03 repeated-bar shortcut "
+            "fires are skipped and counted). Grid landscapes: np.linspace is passed to the model as data (strictly increasing "
+            "grid is C08's contract). Trusted: Lean kernel + Mathlib, axioms propext/Classical.choice/Quot.sound; the "
+            "correspondence harness. Observation outside the property (p >= 1): p_norm(-1) returns NaN instead of the sup norm, "
+            "because both subclasses discard the value of super().p_norm — modelled as is (pNormMethod).",
+    "technique": "Lean 4 theorems (Mathlib interval/Bochner integrals, rpow, Minkowski) over a hand-written model + differential correspondence at Rat/Float + quadrature oracle",
 }
